@@ -310,6 +310,34 @@ fn main() {
             let n = out.finish();
             println!("events={} runs={}", n, run);
         }
+        // re-execute the events stored in a replay artefact (inputs only are read)
+        "replay-file" => {
+            let cases = read_ndjson(arg(args, 1));
+            let mut out = Out::create(arg(args, 2));
+            for c in cases.iter() {
+                let ty = match c["ty"].as_str().unwrap_or("") {
+                    "f64" | "u16" => 0,
+                    _ => 1,
+                };
+                run = c["run"].as_i64().unwrap_or(0);
+                match c["ev"].as_str().unwrap_or("") {
+                    "Encode" => {
+                        let cats: Vec<usize> = as_iv(&c["cats"]).iter().map(|&v| v as usize).collect();
+                        out.emit(encode(ty, run, &as_m2(&c["X2"]), &as_m2(&c["T2"]), &cats, None));
+                    }
+                    "Mapper" => {
+                        let ctor = c["ctor"].as_str().unwrap().to_string();
+                        out.emit(mapper(ty, run, &ctor, &as_iv(&c["items"]), &as_iv(&c["probes"]), None));
+                    }
+                    _ => {
+                        eprintln!("unknown event in replay file");
+                        std::process::exit(2);
+                    }
+                }
+            }
+            let n = out.finish();
+            println!("events={}", n);
+        }
         // impl -> spec, random layouts and the error cases
         "gen-encode" => {
             let mut out = Out::create(arg(args, 1));
